@@ -63,15 +63,18 @@ func H_WrongAsset_Long() { wrongAsset(3, 6, 2, 4, 3) }
 // newest of the same asset and source wins
 //
 //vrf:cover found
-//vrf:bound 2 prices of one asset from one source at symbolic distinct timestamps
+//vrf:bound 2 prices of one asset from one source (elys, band or another; symbolic) at symbolic distinct timestamps
 func H_Newest() {
 	env := wire.New(wire.Opts{})
 	ctx, k := env.Ctx, env.Oracle
 	t1, t2 := vrf.U64("t1", 1, maxT), vrf.U64("t2", 1, maxT)
 	vrf.Assume(t1 != t2)
 	src := otypes.ELYS
-	if vrf.Bool("fromBand") {
+	switch vrf.I64("source", 0, 2) {
+	case 1:
 		src = otypes.BAND
+	case 2:
+		src = "binance" // any other source
 	}
 	k.SetPrice(ctx, otypes.Price{Asset: "ATOM", Source: src, Price: sdkmath.LegacyNewDec(1), Timestamp: t1, BlockHeight: 5})
 	k.SetPrice(ctx, otypes.Price{Asset: "ATOM", Source: src, Price: sdkmath.LegacyNewDec(2), Timestamp: t2, BlockHeight: 5})
